@@ -26,7 +26,7 @@ RULE = (
     "all factory reactions with spins from {0,1/2,1} (thorough: up to 3 for one node, 3/2"
     " for 2 nodes) x both formalisms x parity conservation on/off per node x identical"
     " spin-0 pairs x 1-2 resonances x 1-3 topologies, plus the qrules catalogue; x"
-    " {coefficients, helicity couplings} x naming flags x dynamics {none, BW}; one case ="
+    " {coefficients, helicity couplings} x naming flags x dynamics {none, BW} (couplings x BW included); one case ="
     " one (reaction, configuration); non-trivial = the model has >= 2 chains whose"
     " reference value is non-zero on the grid; distinct = distinct (reaction, config);"
     " size bound: reactions with more than 40 (quick) / 160 (thorough) transitions are"
@@ -147,6 +147,7 @@ def configs(tier: str, formalism: str, heavy: bool = False) -> list[dict]:
     out = [{"couplings": False, "flags": {}, "dyn": "none"}]
     out.append({"couplings": True, "flags": {}, "dyn": "none"})
     out.append({"couplings": False, "flags": {"insert_parent_helicities": True}, "dyn": "bw"})
+    out.append({"couplings": True, "flags": {}, "dyn": "bw"})
     if formalism != "helicity" or tier == "thorough":
         # L-dependent lineshape (form factor + energy-dependent width) on every resonance
         # whose decay defines L (canonical: always; helicity: integer-spin resonances)
